@@ -51,9 +51,10 @@ class ImplInfo:
 
 
 class Program:
-    def __init__(self, mir_text, src_root, crate_dir):
+    def __init__(self, mir_text, src_root, crate_dir, extra_crates=()):
         self.src_root = src_root
         self.crate_dir = crate_dir
+        self.extra_crates = list(extra_crates)
         self.fns, self.consts = P.parse_mir(mir_text)
         self._src = {}
         self.enums = {}        # head -> [(variant, discr)]
@@ -74,11 +75,12 @@ class Program:
         return self._src[rel]
 
     def _scan_sources(self):
-        root = os.path.join(self.src_root, self.crate_dir, 'src')
-        for dp, dn, fn in os.walk(root):
-            for f in fn:
-                if f.endswith('.rs'):
-                    self._scan_file(open(os.path.join(dp, f)).read())
+        for cd in [self.crate_dir] + list(getattr(self, 'extra_crates', [])):
+            root = os.path.join(self.src_root, cd, 'src')
+            for dp, dn, fn in os.walk(root):
+                for f in fn:
+                    if f.endswith('.rs'):
+                        self._scan_file(open(os.path.join(dp, f)).read())
         # std enums / structs
         self.enums.update({
             'Option': [('None', 0), ('Some', 1)],
